@@ -9,6 +9,7 @@ import e2
 import skel
 import lemmas as LM
 import spec_smt as S
+import layout
 from e2run import merged
 
 Q = LM.Q
@@ -585,6 +586,11 @@ class Suite:
                 self.refused(fn.__name__, ['C01', 'C02', 'C03', 'C04', 'C09', 'C11'], 'translator refused: ' + str(e))
             except KeyError as e:
                 self.refused(fn.__name__, ['C01', 'C02', 'C03', 'C04', 'C09', 'C11'], 'anchor missing: ' + str(e))
+        try:
+            layout.run(self.funcs, self.results)
+            self.run.functions.append('MIR sig_decode / sig_encode / sk_decode / sk_encode / pk_decode / w1_encode (section layout, per parameter set, loop index symbolic)')
+        except e2.Refuse as e:
+            self.refused('layout obligations', ['C08', 'C02', 'C09'], str(e))
         return self.results
 
 
